@@ -413,7 +413,105 @@ def targets(ctx):
             case["copy_between"] = draw(st.sampled_from([None, "shallow", "shallow", "deep"]))
         return case
 
+    # ------------------------------------------------------------------ (c) unknown fields INSIDE a sub-message, and
+    # a relay that does something ordinary with the decoded message before it encodes it again
+    # (loading a dict into an existing message - from_dict / from_pydict on an instance - is not a relay in this sense: whether
+    # that merges into or replaces an existing sub-message is dict-loading semantics no listed property fixes; from_dict replaces)
+    RELAYS = ["none", "rewrap_ctor", "setattr_same", "copy", "deepcopy"]
+
+    def relay_clauses(name, tree, unknown, relay, variant, entry):
+        out = []
+        cv = corpus(opts=(variant,)) if variant != "default" else c
+        cls = cv.bp(name)
+        mi = schema.msg(f"ks.{name}")
+        want = norm(schema, mi, tree)
+        recs = wire.parse_records(to_ref(schema, c.ref, mi.full_name, tree).SerializeToString(deterministic=True))
+        urecs = [cm.unknown_to_record(u) for u in unknown]
+        host = None
+        for i, r_ in enumerate(recs):
+            f_ = mi.by_number(r_.number)
+            if f_ is not None and f_.card in ("single", "optional", "repeated") and f_.type == "message" and f_.wkt is None and r_.wt == 2:
+                host = (i, f_)
+                break
+        if host is None:
+            return None  # no sub-message on the wire: nothing to carry nested unknown fields
+        i, hf = host
+        sub_used = {f.number for f in schema.msg(hf.msg).fields}
+        urecs = [u for u in urecs if u.number not in sub_used]
+        if not urecs:
+            return None
+        recs[i] = wire.make_record(hf.number, 2, recs[i].payload + b"".join(u.raw for u in urecs))
+        data = b"".join(r_.raw for r_ in recs)
+        if norm(schema, mi, snap_ref(schema, mi, c.ref.cls(mi.full_name).FromString(data))) != want:
+            raise RuntimeError("reference disagrees on nested unknown records (harness)")
+        try:
+            m = guard("parse", decode_via, cls(), data, entry)
+            info = BPInfo.of(cls)
+            hname = info.pyname(hf)
+            if relay == "rewrap_ctor":
+                kw = {}
+                for fi in mi.fields:
+                    try:
+                        v = getattr(m, info.pyname(fi))
+                    except AttributeError:
+                        continue  # an unselected oneof member
+                    if fi.oneof and v is None:
+                        continue
+                    if fi.type == "message" and fi.wkt is None and fi.card == "single" and not fi.oneof:
+                        import betterproto as _bp
+
+                        if not _bp.serialized_on_wire(v):
+                            continue  # a sub-message that is not there is not handed on (reading it created a default)
+                    kw[info.pyname(fi)] = v
+                m = guard("rewrap", lambda: cls(**kw))
+            elif relay == "setattr_same":
+                guard("setattr_same", setattr, m, hname, getattr(m, hname))
+            elif relay == "copy":
+                import copy as _copy
+
+                m = guard("copy", _copy.copy, m)
+            elif relay == "deepcopy":
+                import copy as _copy
+
+                m = guard("deepcopy", _copy.deepcopy, m)
+            b2 = guard("bytes", bytes, m)
+            got = norm(schema, mi, guard("snapshot", snap_bp, schema, mi, guard("reparse", c.bp(name)().parse, b2)))
+            if got != want:
+                out.append(("known_fields_changed_by_relay", __import__("vf.values", fromlist=["tree_diff"]).tree_diff(got, want)))
+            for u in urecs:
+                if u.raw not in b2:
+                    out.append(("nested_unknown_lost", f"record {u.raw.hex()[:60]} of sub-message {hf.name} missing from {b2.hex()[:200]}"))
+                    break
+            if guard("len", len, m) != len(b2):
+                out.append(("len_vs_bytes_with_nested_unknown", f"len={len(m)} bytes={len(b2)}"))
+        except Guarded as g:
+            out.append((f"raises_{g.where}_{type(g.exc).__name__}", str(g)[:300]))
+        return out
+
+    def relay_ev(case):
+        name, tree = case["msg"], case["tree"]
+        relay, variant, entry = case["relay"], case.get("variant", "default"), case.get("entry", "parse")
+        found = relay_clauses(name, tree, case["unknown"], relay, variant, entry)
+        if found is None:
+            return Eval(discard="no sub-message on the wire to carry nested unknown fields")
+        tag = "" if variant == "default" else f"|{variant}"
+        fails = [Failure(cl, f"relay|{cl}|{relay}{tag}", f"case={case!r:.900} :: {d}") for cl, d in found]
+        return Eval(fails, nontrivial=True, labels=[f"relay:{relay}", f"relay_variant:{variant}", f"msg:{name}"])
+
+    relay_base = cm.msg_tree_strategy(c, names=["Mixed"] * 3 + ["Rec"] * 3 + ["Scalars"] * 2 + ["Holder"] * 3 + ["Box", "Optionals", "Repeats", "Oneofs"])
+
+    @st.composite
+    def relay_strat(draw):
+        case = dict(draw(relay_base))
+        case["unknown"] = draw(st.lists(cm.unknown_record_strategy([1000, 2047, 19, 2**21, 15, 16]), min_size=1, max_size=3))
+        case["relay"] = draw(st.sampled_from(RELAYS))
+        case["variant"] = draw(st.sampled_from(["default", "default", "pydantic_dataclasses"]))
+        case["entry"] = draw(st.sampled_from(ENTRIES))
+        return case
+
     return [
+        Target("nested_unknown_through_relays", relay_ev, strategy=relay_strat(), quick=350, thorough=5000, time_quick=50,
+               rule="unknown records inside a sub-message (singular / optional / repeated) of a decoded message that is then re-wrapped by the constructor, re-assigned, copied - in the default and the pydantic output - must still be re-emitted; known fields unchanged"),
         Target("schema_evolution", evo_ev, strategy=evo_strat(), quick=450, thorough=6000, time_quick=80),
         Target("unknown_records", unk_ev, strategy=unk_strat(), quick=350, thorough=5000, time_quick=60),
     ]
